@@ -33,6 +33,16 @@ def traced_functions(m):
            device.state_multiple_service.terminate,
            device.lookup, device.resolve, device.redirect_tag, device.resolve_tag,
            enip_main.stats_for, enip_main.enip_srv_tcp]
+    # the element encoders: a reply is encoded element by element after the request was executed
+    # (a read that handed out live storage instead of a copy is only seen if a write lands in between)
+    P = m['parser']
+    seen = set()
+    for cls in (P.TYPE, P.BOOL, P.REAL, P.LREAL, P.SSTRING, P.STRING):
+        f = cls.__dict__.get('produce')
+        f = getattr(f, '__func__', f)
+        if f is not None and f.__code__ not in seen:
+            seen.add(f.__code__)
+            fns.append(f)
     return fns
 
 
@@ -72,7 +82,7 @@ class EnipWorld(object):
                 # where the pre-emption budget goes: everywhere, the request-execution core, or one
                 # single function (so that rare windows are entered on purpose, buggify-style)
                 focus = sch.weighted([(2, 'all'), (2, 'core'), (4, 'one')], 'focus')
-                if params.get('focus_fn'):
+                if params.get('focus_fn') or params.get('force_one'):
                     focus = 'one'
             core = ('__getitem__', '__setitem__', 'produce', '_validate_key', 'request', 'reply_elements',
                     '__exit__', 'post_process_closure', '__enter__', 'terminate', 'closure')
@@ -87,9 +97,9 @@ class EnipWorld(object):
                 wt.update(params.get('focus_weights') or {})
                 weighted = []
                 for f in cand:
-                    weighted += [f] * wt.get(f.__name__, 1)
+                    weighted += [f] * wt.get(f.__qualname__, wt.get(f.__name__, 1))
                 fns = [weighted[sch.draw(len(weighted), 'focusfn')]] if not params.get('focus_fn') else \
-                    [f for f in fns if f.__qualname__ == params['focus_fn']]
+                    [f for f in fns if f.__qualname__ in params['focus_fn'].split(',')]
                 self.sched.preempt_gap = sch.choice([3, 8, 25, 80], 'pgapone')
                 # entering the window is the point of this mode: at least one pre-emption, and the
                 # pre-empted thread is held long enough for another session's whole round trip
@@ -98,6 +108,16 @@ class EnipWorld(object):
             self.focus = focus if focus != 'one' else 'one:' + fns[0].__qualname__
             for fn in fns:
                 self.sched.add_traced(fn)
+            # the element encoders are used for every header field as well; pre-emption is wanted where
+            # they encode *tag data*: called from typed_data.produce or Attribute.produce
+            P = self.m['parser']
+            callers = {P.typed_data.produce.__func__.__code__, self.m['device'].Attribute.produce.__code__}
+            callers |= {c for c in self.m['device'].Attribute.produce.__code__.co_consts if hasattr(c, 'co_name')}
+            for cls in (P.TYPE, P.BOOL, P.REAL, P.LREAL, P.SSTRING, P.STRING):
+                f = cls.__dict__.get('produce')
+                f = getattr(f, '__func__', f)
+                if f is not None:
+                    self.sched.traced_callers[f.__code__] = callers
             # the closure inside state_multiple_service.terminate
             if focus in ('all', 'core') or fns[0].__name__ == 'terminate':
                 for c in self.m['device'].state_multiple_service.terminate.__code__.co_consts:
@@ -239,6 +259,15 @@ class EnipWorld(object):
                 a = sym.get(key)
                 if a:
                     self.model.bind_auto(t.name, (a['class'], a['instance'], a['attribute']))
+        # configured tags are distinct arrays: two names share an attribute only where the configuration says so
+        seen = {}
+        for key, t in sorted(self.model.tags.items()):
+            if t.addr is not None:
+                o = seen.setdefault(t.addr, t)
+                if o.sid != t.sid and not getattr(self, '_collision_reported', False):
+                    self._collision_reported = True
+                    self.violation('tag-address-collision', 'tags %r and %r were both placed at @%d/%d/%d by the simulator' % (
+                        (o.name, t.name) + tuple(t.addr)))
 
     def peek(self):
         """{sid: list of values} read directly from the running simulator's Attribute objects."""
@@ -348,8 +377,9 @@ class EnipWorld(object):
             res['error'] = 'HARNESS: ' + ' | '.join(self.harness_errors)[:4000]
         if self.samples:
             res['sample'] = self.samples[:40]
-        if self.violations:
-            res['events'] = [list(e) for e in s.events[-200:]]
+        import os
+        if self.violations or os.environ.get('VERIF_EVENTS'):
+            res['events'] = [list(e) for e in s.events[-int(os.environ.get('VERIF_EVENTS') or 200):]]
         return res
 
 
@@ -536,6 +566,10 @@ class RefSession(object):
         info = rc.dec_forward_open_reply(r.payload)
         self.conn_id = info['o_t']
         self.fo_info = info
+        # the 16-bit sequence count of the connected requests starts anywhere (a long-lived originator;
+        # pylogix keeps its counter across reconnects) and wraps
+        g = self.w.gen
+        self.seq_count = g.choice([0, 0, 0x7FFD, 0xFFFC, 0x8000 + g.draw(0x7FFF, 'seq0')], 'seqk')
         return r
 
     def unit(self, cip, chunks=None):
